@@ -3,7 +3,7 @@
    binary64 (FloatKit.v); S0 V2 S1 S2 MX = the exact integer sums of Model.v. *)
 From Coq Require Import ZArith Reals Floats List QArith Permutation.
 From Flocq Require Import Core.
-From Dastard Require Import Common.ZX C13.Model C13.ModelFloat C13.Spec C13.FloatKit C13.Proofs C13.ProofsQ C13.Bridge C13.Meets C13.Rms C13.Tree C13.Dyadic.
+From Dastard Require Import Common.ZX C13.Model C13.ModelFloat C13.Spec C13.FloatKit C13.Proofs C13.ProofsQ C13.Bridge C13.Meets C13.Rms C13.Tree C13.Dyadic C13.DyadicQ.
 
 (* No rounding occurs in the two accumulation loops of AnalyzeData: the float accumulators hold the
    exact integer (half-integer for the slope accumulator) sums. *)
@@ -155,3 +155,15 @@ Theorem coefficients_meet_definitions_all :
     chk_coefs (zlen d) P d c = true.
 Proof. exact coefficients_meet_all. Qed.
 Print Assumptions coefficients_meet_definitions_all.
+
+(* The references of the projection part of the checker ARE the definitions of Model.v: the dyadic
+   evaluations coef_x (P d), resid_x (d - B c) and var_x (population variance, computed as
+   sum (n r_i - sum r)^2 / n^3) equal, over Q, the textbook coef_def / resid_def / var_def applied to the
+   matrix entries read as rationals (dy2Q). *)
+Theorem dyadic_references_are_definitions :
+  forall (P B : list (list dy)) (c : list dy) (d : list Z),
+    Forall2 Qeq (map dy2Q (coef_x P d)) (coef_def (map (map dy2Q) P) (map QZ d)) /\
+    (B <> nil -> d <> nil ->
+     (var_x (resid_x B c d) == var_def (resid_def (map (map dy2Q) B) (map dy2Q c) (map QZ d)))%Q).
+Proof. exact dyadic_refs_are_definitions. Qed.
+Print Assumptions dyadic_references_are_definitions.
